@@ -447,7 +447,9 @@ func showLbEp(le *endpoint.LbEndpoint) string {
 	} else {
 		addr = "other:" + wire.Enc(a.String())
 	}
-	return fmt.Sprintf("%s/h%d/w%d", addr, int(le.HealthStatus), le.GetLoadBalancingWeight().GetValue())
+	// mTLS as the builder decided it (mtlsChecker): transport-socket metadata tlsMode=istio
+	tls := le.GetMetadata().GetFilterMetadata()[util.EnvoyTransportSocketMetadataKey].GetFields()[model.TLSModeLabelShortname].GetStringValue()
+	return fmt.Sprintf("%s/h%d/w%d/t%s", addr, int(le.HealthStatus), le.GetLoadBalancingWeight().GetValue(), wire.B(tls == model.IstioMutualTLSModeLabel))
 }
 
 // ---------------------------------------------------------------- exec
@@ -763,12 +765,12 @@ func oracleMember(q claQuery, unh bool, d svcDesc, p proxyDesc, sk pair, e *mode
 	return true
 }
 
-func epTok(addr string, port int, h int, w uint64) string {
+func epTok(addr string, port int, h int, w uint64, mtls bool) string {
 	a := wire.Enc(addr) + ":" + strconv.Itoa(port)
 	if port == 0 {
 		a = "pipe:" + wire.Enc(addr)
 	}
-	return fmt.Sprintf("%s/h%d/w%d", a, h, w)
+	return fmt.Sprintf("%s/h%d/w%d/t%s", a, h, w, wire.B(mtls))
 }
 
 // expected computes, per locality, the multiset of endpoint tokens the property demands.
@@ -824,7 +826,7 @@ func expected(world int, q claQuery, unh bool, d svcDesc, p proxyDesc, want map[
 			}
 			loc := e.Locality.Label
 			if world == 0 {
-				exp[loc] = append(exp[loc], epTok(e.Addresses[0], int(e.EndpointPort), h, w))
+				exp[loc] = append(exp[loc], epTok(e.Addresses[0], int(e.EndpointPort), h, w, e.TLSMode == model.IstioMutualTLSModeLabel))
 				continue
 			}
 			// multi-network
@@ -839,7 +841,7 @@ func expected(world int, q claQuery, unh bool, d svcDesc, p proxyDesc, want map[
 			remote := len(ug) > 0 && (p.network == "" && e.Network != "" || !sameOrEmpty(string(e.Network), p.network))
 			if !remote {
 				if e.EndpointPort != 0 && e.Addresses[0] != "" {
-					exp[loc] = append(exp[loc], epTok(e.Addresses[0], int(e.EndpointPort), h, w))
+					exp[loc] = append(exp[loc], epTok(e.Addresses[0], int(e.EndpointPort), h, w, e.TLSMode == model.IstioMutualTLSModeLabel))
 				}
 				continue
 			}
@@ -865,7 +867,7 @@ func expected(world int, q claQuery, unh bool, d svcDesc, p proxyDesc, want map[
 			if w == 0 {
 				w = 1
 			}
-			exp[loc] = append(exp[loc], epTok(g.addr, int(g.port), 0, w))
+			exp[loc] = append(exp[loc], epTok(g.addr, int(g.port), 0, w, true))
 		}
 	}
 	return exp
